@@ -9,7 +9,7 @@ L8 — the occurrence arithmetic of the code generator (C02, C16):
 * `UpdateAttributesEffectiveChoice` (group_repeating_attrs / merge_attrs /
   reset_symmetrical_choices);
 * `MergeAttributes.merge_duplicate_attrs`;
-* `DtdMapper.build_content` for DTD content models.
+* `DtdMapper.build_content` for DTD content models (repaired: paths as for XSD).
 -/
 import XsdataModel.Py.Basic
 import XsdataModel.Tables
@@ -245,36 +245,29 @@ def buildOccurs : Occur → Nat × Nat
   | .mult => (0, maxsize)
   | .plus => (1, maxsize)
 
-/-- keyword overrides handed down by an enclosing `OR` -/
-structure Kw where
-  min : Option Nat := none
-  max : Option Nat := none
-  choice : Option Int := none
-deriving Repr
-
-/-- `DtdMapper.build_content` : the element/value attrs in order (ids of OR nodes in visit order) -/
-def buildContent : DtdContent → Kw → Nat → List Site × Nat
-  | .element name o, kw, next =>
-    let (mn, mx) := buildOccurs o
-    ([{ name, index := 0, min := kw.min.getD mn, max := kw.max.getD mx, choice := kw.choice }], next)
-  | .pcdata o, kw, next =>
-    let (mn, mx) := buildOccurs o
-    ([{ name := "value".toList, index := 0, min := kw.min.getD mn, max := kw.max.getD mx, choice := kw.choice }], next)
-  | .seq _ l r, kw, next =>
-    let (a, n1) := match l with | some c => buildContent c kw next | none => ([], next)
-    let (b, n2) := match r with | some c => buildContent c kw n1 | none => ([], n1)
+/-- `DtdMapper.build_content` with `build_path` (after the repair `fix: DtdMapper combines the
+occurrence of enclosing sequence and choice nodes …`): the element/value attrs in order; every
+SEQ / OR node appends the step `("s"|"c", id(node), min, max)` of its own occurrence indicator to
+the restrictions path of the attrs below it (ids in visit order), the attr keeps the bounds of
+its own indicator; `CalculateAttributePaths` combines them as for XSD. -/
+def buildContent : DtdContent → List PathE → Nat → List Site × Nat
+  | .element name o, path, next =>
+    ([{ name, index := 0, min := (buildOccurs o).1, max := (buildOccurs o).2, path }], next)
+  | .pcdata o, path, next =>
+    ([{ name := "value".toList, index := 0, min := (buildOccurs o).1, max := (buildOccurs o).2, path }], next)
+  | .seq o l r, path, next =>
+    let path' := path ++ [⟨.s, next, (buildOccurs o).1, (buildOccurs o).2⟩]
+    let (a, n1) := match l with | some c => buildContent c path' (next + 1) | none => ([], next + 1)
+    let (b, n2) := match r with | some c => buildContent c path' n1 | none => ([], n1)
     (a ++ b, n2)
-  | .or o l r, kw, next =>
-    let (_, mx) := buildOccurs o
-    -- params = occurs(o) ∪ {choice: id, min_occurs: 0}, then the outer kwargs override
-    let kw' : Kw := { min := some (kw.min.getD 0), max := some (kw.max.getD mx),
-                      choice := some (kw.choice.getD (Int.ofNat next)) }
-    let (a, n1) := match l with | some c => buildContent c kw' (next + 1) | none => ([], next + 1)
-    let (b, n2) := match r with | some c => buildContent c kw' n1 | none => ([], n1)
+  | .or o l r, path, next =>
+    let path' := path ++ [⟨.c, next, (buildOccurs o).1, (buildOccurs o).2⟩]
+    let (a, n1) := match l with | some c => buildContent c path' (next + 1) | none => ([], next + 1)
+    let (b, n2) := match r with | some c => buildContent c path' n1 | none => ([], n1)
     (a ++ b, n2)
 
 def dtdSites (c : DtdContent) : List Site :=
-  let raw := (buildContent c {} 1).1
+  let raw := (buildContent c [] 1).1
   (List.range raw.length).zip raw |>.map fun (i, s) => { s with index := i }
 
 /-- the DTD content model as a particle (the language `lxml.etree.DTD` validates) -/
